@@ -45,6 +45,7 @@ def parsePkt (w : String) : Option Pkt :=
 def parseEv (ws : List String) : Option Ev :=
   match ws with
   | ["callStart"] => some .callStart | ["resolved", b] => some (.resolved (b == "1"))
+  | ["sockFault"] => some .sockFault
   | ["sockDone", b] => some (.sockDone (b == "1")) | ["wakeStart"] => some .wakeStart | ["cancelStart"] => some .cancelStart
   | ["callFinish"] => some .callFinish | ["connMade"] => some .connMade | ["hsOk"] => some .hsOk
   | ["wakeFinish"] => some .wakeFinish | ["cancelFinish"] => some .cancelFinish
